@@ -204,6 +204,12 @@ pub fn run(args: &Args, report: &mut Report) {
                 if d.sev.is_none() || d.sev == Some(0) {
                     fails.push(format!("{}: no severity", d.code));
                 }
+                if d.msg.contains("{}") {
+                    report.count("message_contains_{}");
+                    if !report.notes.iter().any(|n| n.starts_with("message with {}")) {
+                        report.notes.push(format!("message with {{}} (inspected, not a failure): {} {:?}", d.code, d.msg));
+                    }
+                }
                 if let Some(p) = placeholders(&d.msg) {
                     fails.push(format!("{}: message {:?} has an unsubstituted placeholder / is empty ({p})", d.code, d.msg));
                 }
